@@ -20,6 +20,8 @@ pub struct Unit {
     pub types: Vec<(String, String)>, // type pattern with $1..$9 => replacement
     pub bounds: Vec<(String, String)>,
     pub methods: Vec<(String, String)>, // method rename: `name` => `new_name` (all receivers)
+    pub ufcs: Vec<String>,            // `path(a0, a1..)` => `a0.last_segment(a1..)` (rule U1)
+    pub exprs: Vec<(String, String)>, // expression path => replacement expression (statics such as REGISTRY)
     pub adapters_off: bool,
     pub extracts: Vec<Extract>,
 }
@@ -38,6 +40,8 @@ impl Unit {
                 "spec" => u.specs.extend(words()),
                 "eager" => { u.eager.extend(words()); u.traced.extend(words()); }
                 "traced" => u.traced.extend(words()),
+                "ufcs" => u.ufcs.extend(words()),
+                "expr" => { let (a, b) = rest.split_once("=>").ok_or_else(|| format!("{}:{}: expected `a => b`", p.display(), n + 1))?; u.exprs.push((nospace(a), b.trim().to_string())); }
                 "path" | "type" | "bound" | "method" => {
                     let (a, b) = rest.split_once("=>").ok_or_else(|| format!("{}:{}: expected `a => b`", p.display(), n + 1))?;
                     let pair = (if kw == "type" { a.trim().to_string() } else { nospace(a) }, b.trim().to_string());
